@@ -90,6 +90,7 @@ class Engine:
                           unknown=0, solver_s=0.0, obligations=0, discharged=0,
                           nontrivial_paths=0, violations=0)
         self.labels = {}
+        self.label_time = {}
         self.samples = []
         self.violations = []
         self.reach = 0  # reachability witnesses (prove(False) twins that came back sat)
@@ -282,6 +283,13 @@ class Engine:
         self.path_obligations += 1
         st = self.labels.setdefault(label, [0, 0])
         st[0] += 1
+        _t0 = time.time()
+        try:
+            self._prove(cond, label, key, detail, st)
+        finally:
+            self.label_time[label] = self.label_time.get(label, 0.0) + time.time() - _t0
+
+    def _prove(self, cond, label, key, detail, st):
         c = tobool(cond)
         if isinstance(c, bool):
             if not c:
